@@ -142,6 +142,35 @@ def check(ctx, pcirc, order, link_order, assigns, replay, setp=None):
             nm = comp["param"]
             vals[nm] = assign.get(nm, (setp or {}).get(nm, comp["default"]))
         conc = c04.at_point(dict(pcirc, exposed=[]), vals)
+        # the executable model of split() on this level (HNet.splitLevel: union loop, sub-level per set, each solved) at the defaults
+        if not assign and n <= 8 and not aliases and all(len(c_["pins"]) for c_ in pcirc["comps"]):
+            tree = {"children": [{"leaf": {"pins": c_["pins"], "idx": c_["idx"], "S": gen.mat_json(c_["S"])}} for c_ in conc["comps"]],
+                    "links": [{"a": a, "p": p_, "b": b, "q": q_} for (a, p_, b, q_) in pcirc["links"]],
+                    "exposed": [{"name": n_.name, "c": sid(t[0]), "p": t[1].name} for n_, t in sol.pin_mapping.items()]}
+            ans = ctx.driver.ask({"op": "hsplit", "tree": tree})
+            if "parts" not in ans:
+                ctx.disagreement("C12.model.hsplit", f"model: {str(ans)[:80]}", replay)
+            else:
+                mparts = {frozenset(pt["positions"]): pt for pt in ans["parts"]}
+                if set(mparts) != set(got):
+                    ctx.disagreement("C12.model.hsplit", f"model parts {sorted(map(sorted, mparts))} vs split() {sorted(map(sorted, got))}", replay)
+                else:
+                    for sub, members in zip(subs, got):
+                        pt = mparts[members]
+                        ctx.tag("model:hsplit", "hyp:WFTree" if pt.get("wftree") else "hyp:outside:WFTree")
+                        rn = sorted(p_.name for p_ in sub.pin_mapping)
+                        if sorted(pt["names"]) != rn:
+                            ctx.disagreement("C12.model.hsplit", f"part {sorted(members)} exposes {rn}, the model {sorted(pt['names'])}", replay)
+                            break
+                        names_, Ts_ = parts.get(members, (None, None))
+                        if "T" in pt and names_ is not None and not isinstance(Ts_, Exception) and sorted(names_) == sorted(pt["pins"]):
+                            k_ = len(names_)
+                            o_ = [pt["pins"].index(x) for x in names_]
+                            Tm_ = gen.json_mat_np([z for row in pt["T"] for z in row], k_, k_) if k_ else np.zeros((0, 0), complex)
+                            Tm_ = Tm_[np.ix_(o_, o_)] if k_ else Tm_
+                            if Tm_.size and float(np.max(np.abs(Tm_ - Ts_[0]))) > 1e-9:
+                                ctx.disagreement("C12.model.hsplit", f"part {sorted(members)}: the model's solve of the sub-level differs from the sub-solver's solve at the defaults", replay)
+                                break
         for members, (names, Ts) in parts.items():
             if isinstance(Ts, Exception):
                 if impl.outcome_class(Ts) == "singular":
